@@ -98,7 +98,18 @@ LateResetCases == { [cluster |-> cl, script |-> sc, try |-> TRUE, hold |-> "none
 ResetVsResponse == << "hold:bs.reset.locked", "arrive:bs.reset.locked", "do:upresp", "pause:30", "release:bs.reset.locked" >>
 ResetVsResponseCases == { [cluster |-> cl, script |-> sc, try |-> t, hold |-> "none", during |-> "none", hold2 |-> "none", body |-> b,
                            steps |-> ResetVsResponse] : cl \in {"direct", "r1"}, sc \in {<<"gate">>, <<"gate", "ok">>}, t \in BOOLEAN, b \in BOOLEAN }
-StepCases == LateResetCases \cup ResetVsResponseCases \cup { [cluster |-> cl, script |-> sc, try |-> (t = "ptimer"), hold |-> "none", during |-> "none", hold2 |-> "none", body |-> FALSE,
+(* Read off the TLC counterexample of DownstreamImpl with defect "StaleWakeEndsRequest" (OnResetStream raises its flag and
+   sends the token in two steps): the worker has sent attempt 1 and is held in the processError before its wait (ds.pe#k);
+   the per-try timer of the hanging attempt fires, its OnResetStream raises the flag and is held before sendNotify
+   (us.reset.flagged); the worker goes on: it acts on the flag, admits the retry, drains the slot at the loop top, sends
+   attempt 2 and is held before its wait (ds.wait); now the token is sent; the worker waits - and finds a token without
+   news.  It must keep waiting: attempt 2 is answered afterwards (or times out in its turn): one reply, in time. *)
+StaleWake(k) == << "hold:ds.pe#" \o k, "hold:us.reset.flagged", "hold:ds.wait",
+                   "arrive:ds.pe#" \o k, "arrive:us.reset.flagged", "release:ds.pe#" \o k,
+                   "arrive:ds.wait", "release:us.reset.flagged", "pause:5", "release:ds.wait", "pause:5", "do:upresp" >>
+StaleWakeCases == { [cluster |-> cl, script |-> sc, try |-> TRUE, hold |-> "none", during |-> "none", hold2 |-> "none", body |-> FALSE,
+                     steps |-> StaleWake(k)] : cl \in {"direct", "r1"}, sc \in {<<"hang", "gate">>, <<"hang", "hang">>}, k \in {"5", "6", "7"} }
+StepCases == LateResetCases \cup ResetVsResponseCases \cup StaleWakeCases \cup { [cluster |-> cl, script |-> sc, try |-> (t = "ptimer"), hold |-> "none", during |-> "none", hold2 |-> "none", body |-> FALSE,
                 steps |-> StaleTimer(t)] : cl \in {"r1", "r2"}, sc \in {<<"ok">>, <<"hang">>, <<"s503", "ok">>, <<"close">>}, t \in {"ptimer", "gtimer"} }
 
 (* ---- the shape of the request as a dimension of the runs (RequestShape.tla, model: RequestForward.tla) ----
